@@ -18,6 +18,8 @@ def load_all():
         name = os.path.basename(path)[:-3]
         if name != "__init__":
             importlib.import_module("contracts." + name)
+    from . import contract as _C
+    _C.apply_bounded_registry()
 
 
 def make_engine(timeout_ms=10000):
